@@ -33,10 +33,11 @@ var triggers = []trigger{
 	{
 		// MVP-6.0's flush (cpu.go, "TODO Same checks as in MVP 6.1") resets every
 		// execute unit and cleans the buses without looking at instruction age:
-		// OLDER work still in flight on another unit is dropped.
+		// OLDER work still in flight on another unit is dropped, younger work
+		// survives: wrong results, hangs and out-of-range stores.
 		id: "KF-W1", props: wmProps,
 		match: func(c *core.Case, f *features, class string) bool {
-			return c.Cfg.V == mach.MVP60 && c.Cfg.EU >= 2 && f.redirects >= 1 && isMismatch(class)
+			return c.Cfg.V == mach.MVP60 && c.Cfg.EU >= 2 && f.redirects >= 1
 		},
 	},
 	{
